@@ -154,7 +154,14 @@ fn gen_cas(rng: &mut SmallRng, p: &Profile, scale: f64) -> CasArg {
         15 => CasArg::Minus1,
         16 => CasArg::Raw(1),
         17 => CasArg::Raw(u64::MAX),
-        _ => CasArg::Raw(rng.gen()),
+        18 => CasArg::XorBit(rng.gen_range(0..64)),
+        _ => {
+            if rng.gen_bool(0.5) {
+                CasArg::XorBit(rng.gen_range(0..64))
+            } else {
+                CasArg::Raw(rng.gen())
+            }
+        }
     }
 }
 
@@ -226,10 +233,15 @@ pub fn gen_cmd(rng: &mut SmallRng, p: &Profile, m: &Model, keys: &[Vec<u8>], lim
             Cmd::Concat { append: rng.gen_bool(0.5), key, value: v, cas: gen_cas(rng, p, 1.0), quiet }
         }
         5 => {
-            let exp = match rng.gen_range(0..8) {
-                0 | 1 => 0xffff_ffff,
-                2 => 1,
-                3 => 100,
+            let exp = match rng.gen_range(0..12) {
+                0 | 1 | 2 => 0xffff_ffff,
+                3 => 1,
+                4 => 100,
+                // only 0xffffffff means "do not create": its neighbours and the sign-bit boundary are expirations
+                5 => 0xffff_fffe,
+                6 => 0x8000_0000,
+                7 => 0x7fff_ffff,
+                8 => rng.gen(),
                 _ => 0,
             };
             Cmd::Counter {
@@ -304,6 +316,9 @@ pub enum Sweep {
 
 pub struct CaseOut {
     pub viol: Option<Viol>,
+    /// observations that refute other properties only: the case went on after them (the model re-learns the
+    /// key), so that what the same defect does to *this* property is still seen
+    pub foreign: Vec<Viol>,
     pub trace: Vec<String>,
     pub counters: BTreeMap<String, u64>,
     pub fingerprint: u64,
@@ -532,6 +547,7 @@ pub fn run_case(ctx: &Ctx, prof: &Profile, case: u64, verbose: bool) -> CaseOut 
     let len = if cfg!(miri) { 25 } else { rng.gen_range(prof.len.0..=prof.len.1) };
     let mut out = CaseOut {
         viol: None,
+        foreign: vec![],
         trace: vec![format!("case {} seed {:#x} limit {} store {:?} t0 {} sweep {:?} keys {:?} other items in the store {}", case, seed, limit, kind, t0, sweep_mode, keys.iter().map(|k| wire::short(k)).collect::<Vec<_>>(), crowd)],
         counters: BTreeMap::new(),
         fingerprint: 0,
@@ -605,8 +621,15 @@ pub fn run_case(ctx: &Ctx, prof: &Profile, case: u64, verbose: bool) -> CaseOut 
                     fp.extend_from_slice(&[cmd.opcode(), cmd.key().unwrap_or(99) as u8, obs.state.len() as u8, obs.status as u8]);
                 }
                 Err(v) => {
-                    out.viol = Some(v);
-                    break;
+                    let fatal = matches!(v.sig.as_str(), "panic" | "valid-frame-rejected" | "frame-count" | "follower-unanswered" | "resp-grammar");
+                    if v.hits(&ctx.prop) || fatal || out.foreign.len() >= 3 {
+                        out.viol = Some(v);
+                        break;
+                    }
+                    out.foreign.push(v);
+                    for sl in m.slots.iter_mut() {
+                        *sl = Slot::Unknown;
+                    }
                 }
             }
         }
@@ -625,8 +648,15 @@ pub fn run_case(ctx: &Ctx, prof: &Profile, case: u64, verbose: bool) -> CaseOut 
             *out.counters.entry("sweep-gets".into()).or_insert(0) += keys.len() as u64;
             if let Err(v) = r {
                 out.trace.extend(tr);
-                out.viol = Some(v);
-                break;
+                if v.hits(&ctx.prop) || out.foreign.len() >= 3 || v.sig == "resp-grammar" {
+                    out.viol = Some(v);
+                    break;
+                }
+                out.foreign.push(v);
+                for sl in m.slots.iter_mut() {
+                    *sl = Slot::Unknown;
+                }
+                continue;
             }
             if verbose {
                 out.trace.extend(tr);
@@ -772,6 +802,12 @@ pub fn run(ctx: &Ctx) -> i32 {
                             sample = Some(json!({"case": c, "trace": o.trace.iter().take(40).collect::<Vec<_>>()}));
                         }
                     }
+                    if !o.foreign.is_empty() {
+                        let mut e = shared.lock().unwrap();
+                        for v in o.foreign.iter().cloned() {
+                            e.violation(v, json!({"engine":"kv","case":c,"replay_cmd":format!("/verif/check {} replay --case {}", ctx.prop, c)}));
+                        }
+                    }
                     if let Some(v) = o.viol {
                         let mut e = shared.lock().unwrap();
                         e.violation(v, json!({"engine":"kv","case":c,"replay_cmd":format!("/verif/check {} replay --case {}", ctx.prop, c),"trace":o.trace}));
@@ -848,6 +884,7 @@ fn run_variant(prog: &[Cmd], keys: &[Vec<u8>], limit: u32, kind: StoreKind, t0: 
                     }
                     CasArg::Plus1 => prev[k].wrapping_add(1).max(1),
                     CasArg::Minus1 => prev[k].wrapping_sub(1).max(1),
+                    CasArg::XorBit(b) => (prev[k] ^ (1u64 << (*b % 64))).max(1),
                     CasArg::Stale(n) => {
                         let old: Vec<u64> = seen[k].iter().copied().filter(|t| *t != prev[k]).collect();
                         if old.is_empty() {
